@@ -152,7 +152,7 @@ def run_case(case, info):
             def mk(kind, f=f):
                 def on_model(env):
                     fargs = w.env_to_float_args(env, A)
-                    kid = KNOWN_SITES.get(w.func) if (kind == "branches" and _in_abs_band(fargs, s_float or env.get("s", 1.0) or 1.0)) else None
+                    kid = KNOWN_SITES.get(w.func) if (kind == "branches" and w.func in KNOWN_SITES and _in_abs_band(fargs, s_float or env.get("s", 1.0) or 1.0)) else None
                     return {"key": f"C12|{w.func}|{kind}|{f}" + ("|abs-tolerance-band" if kid else ""), "known_id": kid,
                             "replay": {"kind": kind, "wrapper": name, "field": f, "args": {k: v.tolist() for k, v in fargs.items()}, "s": s_float or env.get("s", 1.0)}}
 
